@@ -16,7 +16,7 @@ def run(run):
     ok = run.obligations_for(["Csvq.Props.C09"])
     csvq = run.build_csvq()
     env = {"VERIF_CSVQ": str(csvq)} if csvq else {}
-    run.stream("c09", 150 if q else 6000, env=env, timeout=3000)
+    run.stream("c09", 240 if q else 6000, env=env, timeout=3000)
     # "...or lose an update": a transaction that read a table and then changes it must work on the data
     # as of the moment it takes the lock (session histories with a second writer, model of C01/C20)
     run.stream("c01", 400 if q else 3000, seed_offset=200, model="C01", timeout=3000)
